@@ -4,7 +4,10 @@ x/metadata/keeper/{scope,session,record}.go on every run).
 
 `expected` is the case split that `PvModel/Signers.lean` (`validateWriteScope`,
 `validateDeleteScope`, `validateScopeUpdateSigners`, `validateUpdateScopeOwners`,
-`validateWriteSession`, `validateWriteRecord`, `validateDeleteRecord`) encodes, written down
+`validateWriteSession`, `validateWriteRecord`, `validateDeleteRecord`; with value owners
+`validateWriteScopeVO`, `validateDeleteScopeVO`: the value-owner look-up, what decides that "only
+the value owner changes" — `existing.Equals(proposedCopy)`, every other field —, the call of
+`ValidateScopeValueOwnersSigners`) encodes, written down
 call by call: which validation function each endpoint calls, with which required / available
 party lists and which specification's role list, and how the required lists are assembled.
 If an endpoint starts passing other parties or roles, the regenerated list changes and
@@ -30,6 +33,9 @@ def expectedSignerCalls : List SignerCall := [
   ⟨"ValidateDeleteRecord", "GetRecordSpecification", ["record.SpecificationId"]⟩,
   ⟨"ValidateDeleteRecord", "ValidateSignersWithoutParties", ["types.GetRequiredPartyAddresses(scope.Owners)"]⟩,
   ⟨"ValidateDeleteRecord", "ValidateSignersWithParties", ["scope.Owners", "scope.Owners", "reqSpec.ResponsibleParties"]⟩,
+  ⟨"ValidateWriteScope", "GetScopeValueOwner", ["proposed.ScopeId"]⟩,
+  ⟨"ValidateWriteScope", "set:onlyChangeIsValueOwner", ["false"]⟩,
+  ⟨"ValidateWriteScope", "set:onlyChangeIsValueOwner", ["existing.Equals(proposedCopy)"]⟩,
   ⟨"ValidateWriteScope", "GetScopeSpecification", ["proposed.SpecificationId"]⟩,
   ⟨"ValidateWriteScope", "validateRolesPresent", ["proposed.Owners", "scopeSpec.PartiesInvolved"]⟩,
   ⟨"ValidateWriteScope", "validateProvenanceRole", ["types.BuildPartyDetails(nil, proposed.Owners)"]⟩,
@@ -38,11 +44,14 @@ def expectedSignerCalls : List SignerCall := [
   ⟨"ValidateWriteScope", "GetScopeSpecification", ["existing.SpecificationId"]⟩,
   ⟨"ValidateWriteScope", "set:reqRoles", ["existingSpec.PartiesInvolved"]⟩,
   ⟨"ValidateWriteScope", "validateAllRequiredPartiesSigned", ["existing.Owners", "existing.Owners", "reqRoles"]⟩,
+  ⟨"ValidateWriteScope", "ValidateScopeValueOwnersSigners", ["existingVOAddrs", "proposed.ValueOwnerAddress"]⟩,
   ⟨"ValidateWriteScope", "validateSmartContractSigners", ["usedSigners"]⟩,
   ⟨"ValidateDeleteScope", "validateAllRequiredSigned", ["scope.GetAllOwnerAddresses()"]⟩,
   ⟨"ValidateDeleteScope", "GetScopeSpecification", ["scope.SpecificationId"]⟩,
   ⟨"ValidateDeleteScope", "validateAllRequiredSigned", ["types.GetRequiredPartyAddresses(scope.Owners)"]⟩,
   ⟨"ValidateDeleteScope", "validateAllRequiredPartiesSigned", ["scope.Owners", "scope.Owners", "scopeSpec.PartiesInvolved"]⟩,
+  ⟨"ValidateDeleteScope", "GetScopeValueOwner", ["scope.ScopeId"]⟩,
+  ⟨"ValidateDeleteScope", "ValidateScopeValueOwnersSigners", ["existingVOAddrs", "\"\""]⟩,
   ⟨"ValidateDeleteScope", "validateSmartContractSigners", ["usedSigners"]⟩,
   ⟨"ValidateSetScopeAccountData", "validateAllRequiredSigned", ["scope.GetAllOwnerAddresses()"]⟩,
   ⟨"ValidateSetScopeAccountData", "GetScopeSpecification", ["scope.SpecificationId"]⟩,
@@ -60,6 +69,7 @@ def expectedSignerCalls : List SignerCall := [
   ⟨"ValidateUpdateScopeOwners", "ValidateSignersWithoutParties", ["existing.GetAllOwnerAddresses()"]⟩,
   ⟨"ValidateUpdateScopeOwners", "validateAllRequiredPartiesSigned", ["existing.Owners", "existing.Owners", "scopeSpec.PartiesInvolved"]⟩,
   ⟨"ValidateUpdateScopeOwners", "validateSmartContractSigners", ["types.GetUsedSigners(validatedParties)"]⟩,
+  ⟨"ValidateUpdateValueOwners", "ValidateScopeValueOwnersSigners", ["links.GetAccAddrs()", "proposed"]⟩,
   ⟨"ValidateWriteSession", "ValidateOptionalParties", ["scope.RequirePartyRollup", "proposed.Parties"]⟩,
   ⟨"ValidateWriteSession", "GetContractSpecification", ["proposed.SpecificationId"]⟩,
   ⟨"ValidateWriteSession", "GetScopeSpecification", ["scope.SpecificationId"]⟩,
